@@ -55,7 +55,7 @@ def all_renderings(db):
 
 
 def check_default(sh, db, doc, rng, tracer, origin):
-    case = {'kind': 'render', 'origin': origin}
+    case = {'kind': 'render', 'origin': origin, 'case_seed': getattr(sh, 'case_seed', None)}
     before = walk.content(db)          # snapshot BEFORE anything is rendered
     pre = walk.identity(db)            # id -> object (keeps them alive)
     tracer.events.clear()
@@ -176,7 +176,7 @@ def check_configured(sh, doc, text, rng, via):
             return
     else:
         db = apibuild.build(doc, sql_renderer=RecSQL, dbml_renderer=RecDBML)
-    case = {'kind': 'configured', 'via': via, 'text': text}
+    case = {'kind': 'configured', 'via': via, 'text': text, 'case_seed': getattr(sh, 'case_seed', None)}
     if db.sql_renderer is not RecSQL or db.dbml_renderer is not RecDBML:
         sh.violation('route', f'configured:not-stored:{via}', 'renderer classes not stored on the database', case)
         return
@@ -254,7 +254,43 @@ def check_detached(sh, doc, rng):
                 continue
             sh.count('obs.detached_checks')
             if log or got != want:
-                sh.violation('detached', f'detached:{kind}.{what}', f'detached element still routed through the database renderers ({len(log)} calls) or differs from default', {'kind': 'detached'})
+                sh.violation('detached', f'detached:{kind}.{what}', f'detached element still routed through the database renderers ({len(log)} calls) or differs from default', {'kind': 'detached', 'case_seed': getattr(sh, 'case_seed', None)})
+
+
+def one_case(sh, case_seed, tracer):
+    rng = random.Random(case_seed)
+    sh.case_seed = case_seed
+    doc = gen.random_doc(rng, rng.choice(['small', 'small', 'medium']), 'plain', flavours=('tok',), props=rng.random() < 0.3)
+    shape = rng.choice(['full', 'full', 'full', 'notables', 'emptysticky'])
+    if shape == 'notables':
+        # a database without tables: only enums, sticky notes and a project
+        doc.tables, doc.refs, doc.groups = [], [], []
+        if not doc.enums:
+            doc.enums.append(am.Enum('public', 'eonlyq', [am.EnumItem('i1q')]))
+        if doc.project is None:
+            doc.project = am.Project('ponlyq', [('k1q', 'v1q')])
+        doc.stickies.append(am.Sticky('sonlyq', 'text onlyq'))
+        doc.default_order()
+    elif shape == 'emptysticky':
+        doc.stickies.append(am.Sticky('semptyq', ''))
+        doc.order.append(('s', len(doc.stickies) - 1))
+    sh.count('obs.shape.' + shape)
+    text = surface.render(doc, case_seed)
+    feats = gen.features(doc)
+    for origin in ('parsed', 'api'):
+        if origin == 'parsed':
+            db, err = parse(text, allow_properties=doc.allow_properties)
+            if err is not None:
+                sh.count('obs.source_rejected')
+                continue
+        else:
+            db = apibuild.build(doc)
+        sh.case([text, origin, 'default'], nontrivial=len(feats) >= 2, sample={'origin': origin, 'config': 'default', 'text': text[:500]})
+        check_default(sh, db, doc, rng, tracer, origin)
+    for via in ('parser', 'constructor'):
+        sh.case([text, via, 'configured'], nontrivial=len(feats) >= 2)
+        check_configured(sh, doc, text, rng, via)
+    check_detached(sh, doc, rng)
 
 
 def plan(tier, seed):
@@ -270,37 +306,7 @@ def run_shard(spec, tier, seed, budget_s):
     with monitors.WriteTracer(keep_ids=True) as tracer:
         while k < target and not sh.out_of_time():
             k += 1
-            doc = gen.random_doc(rng, rng.choice(['small', 'small', 'medium']), 'plain', flavours=('tok',), props=rng.random() < 0.3)
-            shape = rng.choice(['full', 'full', 'full', 'notables', 'emptysticky'])
-            if shape == 'notables':
-                # a database without tables: only enums, sticky notes and a project
-                doc.tables, doc.refs, doc.groups = [], [], []
-                if not doc.enums:
-                    doc.enums.append(am.Enum('public', 'eonlyq', [am.EnumItem('i1q')]))
-                if doc.project is None:
-                    doc.project = am.Project('ponlyq', [('k1q', 'v1q')])
-                doc.stickies.append(am.Sticky('sonlyq', 'text onlyq'))
-                doc.default_order()
-            elif shape == 'emptysticky':
-                doc.stickies.append(am.Sticky('semptyq', ''))
-                doc.order.append(('s', len(doc.stickies) - 1))
-            sh.count('obs.shape.' + shape)
-            text = surface.render(doc, f'{seed}-{i}-{k}')
-            feats = gen.features(doc)
-            for origin in ('parsed', 'api'):
-                if origin == 'parsed':
-                    db, err = parse(text, allow_properties=doc.allow_properties)
-                    if err is not None:
-                        sh.count('obs.source_rejected')
-                        continue
-                else:
-                    db = apibuild.build(doc)
-                sh.case([text, origin, 'default'], nontrivial=len(feats) >= 2, sample={'origin': origin, 'config': 'default', 'text': text[:500]})
-                check_default(sh, db, doc, rng, tracer, origin)
-            for via in ('parser', 'constructor'):
-                sh.case([text, via, 'configured'], nontrivial=len(feats) >= 2)
-                check_configured(sh, doc, text, rng, via)
-            check_detached(sh, doc, rng)
+            one_case(sh, f'{seed}-c16-{i}-{k}', tracer)
     return sh
 
 
@@ -311,4 +317,10 @@ def conclusive(agg, tier):
 
 
 def replay(v):
-    return [dict(v)]
+    sh = Shard(ID)
+    cs = (v.get('case') or {}).get('case_seed')
+    if not cs:
+        return [dict(v)]
+    with monitors.WriteTracer(keep_ids=True) as tracer:
+        one_case(sh, cs, tracer)
+    return sh.violations
